@@ -15,6 +15,26 @@ NOT_YET = {}
 
 exec(open(os.path.join(HERE, "tools", "claims.py")).read())
 
+# the rule list in each technique string comes from the checker's own catalogue (bin/mowcheck -list), so it cannot drift
+import re, subprocess
+def compact(ids):
+    fam = {}
+    for i in ids:
+        f, n = i.split("-")
+        fam.setdefault(f, []).append(int(n))
+    return ", ".join(f + "-" + "/".join(str(n) for n in sorted(ns)) for f, ns in sorted(fam.items()))
+by_prop = {}
+lst = subprocess.run([os.path.join(HERE, "bin", "mowcheck"), "-list"], capture_output=True, text=True).stdout
+for l in lst.splitlines():
+    mm = re.match(r"(\S+)\s+floor=\d+\s+props=(\S+)", l)
+    if mm:
+        for q in mm.group(2).split(","):
+            by_prop.setdefault(q, []).append(mm.group(1))
+if not by_prop:
+    sys.exit("bin/mowcheck -list gave nothing: build the checker first")
+for pid, c in CLAIMS.items():
+    c["technique"] = re.sub(r" \([A-Z]+-[^()]*\)$", "", c["technique"]) + " (" + compact(by_prop[pid]) + "; obligation-level scoping in checker/internal/rules/scope.go)"
+
 props = [json.loads(l) for l in open(os.path.join(HERE, "properties.jsonl"))]
 checks, na = [], []
 for p in props:
